@@ -140,10 +140,10 @@ STOP_OUTSIDE = ["real-time accuracy of poll", "fork-mode children", "negative ti
                 "failing kill()/waitpid() during stop (covered for C06/C05 by H_history)"]
 
 
-def stop_job(mode, tier):
-    name = {0: "stop", 1: "destroy", 2: "wait", 3: "wait-fault-wait"}[mode]
+def stop_job(mode, tier, F=0):
+    name = {0: "stop", 1: "destroy", 2: "wait", 3: "wait-fault-wait"}[mode] + ("-F%d" % F if F else "")
     return Job("h_stop", variant=name, defines={"VP_MODE": mode, "VP_MAXEV": 1, "VP_NFD": 14,
-                                               "VP_NOFD": 14},
+                                               "VP_NOFD": 14, "VP_F": F},
                unwind=16, params={"nfd": 14, "retry": 2, "input_max": 0},
                cbmc_flags=["--slice-formula"], timeout=900, solvers=("cadical", "kissat"),
                bounds={"calls_after_start": "optional wait + 1", "children": 1})
@@ -167,10 +167,9 @@ API = ["pid", "wait", "terminate", "kill", "stop", "read", "write", "close", "po
 def history_jobs(tier, F=0, which=range(10)):
     """quick: the first call after the canonical prefix is fixed per job (10 jobs), the second is any of
     the cheap calls; thorough: two fully symbolic calls + one cheap call in a single job as well"""
-    jobs = [history_job(tier, F, w) for w in which]
-    if tier == "thorough":
-        jobs.append(history_job(tier, F, None, K=2))
-    return jobs
+    # (a single job with two fully symbolic calls did not finish in 25 minutes: thorough deepens the
+    # per-call jobs with one extra call from the cheap subset and a fault budget instead)
+    return [history_job(tier, F, w) for w in which]
 
 
 def history_job(tier, F=0, which=None, K=1):
@@ -427,6 +426,20 @@ add("C19", lambda tier: [cxx_job(1, "options_from"), cxx_job(2, "clone"), cxx_jo
                          cxx_job(4, "methods", unwind=44), cxx_job(5, "containers", unwind=44), cxx_job(6, "enums", unwind=66)])
 
 
+def _scale_drain(workdir):
+    """scratch copy of drain.c with the 4096-byte read buffer scaled to the model's pipe capacity (2),
+    so that 'a read that fills the whole buffer' exists; must match exactly once"""
+    from .runner import SRC, Inconclusive
+    d = os.path.join(workdir, "repo_scaled")
+    os.makedirs(d, exist_ok=True)
+    src = open(os.path.join(SRC, "drain.c")).read()
+    old = "uint8_t buffer[4096];"
+    if src.count(old) != 1:
+        raise Inconclusive("cannot scale the drain buffer: declaration not found exactly once")
+    open(os.path.join(d, "drain.c"), "w").write(src.replace(old, "uint8_t buffer[2];"))
+    return ["-I" + d]
+
+
 def drain_job(tier, mode, errmode, S=None, F=None, io=1):
     S = S if S is not None else (2 if tier == "quick" else 3)
     F = F if F is not None else (0 if tier == "quick" else 1)
@@ -435,9 +448,10 @@ def drain_job(tier, mode, errmode, S=None, F=None, io=1):
                defines={"VP_MODE": mode, "VP_S": S, "VP_ERRMODE": errmode, "VP_IO": io, "VP_MAXEV": S + 1 if io else 1,
                         "VP_NFD": 16, "VP_NOFD": 16, "VP_LOG": 6, "VP_F": F},
                unwind=18, params={"nfd": 16, "retry": 3, "input_max": 0, "drain_iters": S + 4},
+               prepare=_scale_drain,
                cbmc_flags=["--slice-formula"], timeout=2400, solvers=("cadical", "kissat"),
                bounds={"child_io_actions": S, "sink_calls_logged": 8, "pipe_capacity_bytes": 2,
-                       "drain_loop_iterations": S + 3})
+                       "drain_loop_iterations": S + 3, "drain_read_buffer": "2 bytes (scaled from 4096)"})
 
 
 prop("C16", units=["reproc/src/drain.c (reproc_drain, sink_string, reproc_sink_string, reproc_free)",
@@ -506,3 +520,8 @@ add("C20", lambda tier: start_jobs(tier, 1, F=0, types=(1,)))
 # C03's "the child receives exactly the argument strings passed" on Windows goes through the command line
 add("C03", lambda tier: [win_job(1, "argv-2x2", 2, 2)])
 add("C15", lambda tier: start_jobs(tier, 0, types=(1, 3)))
+
+# ---- strengthening after the second mutation round
+add("C07", lambda tier: [stop_job(0, tier, F=1), stop_job(3, tier)])
+add("C08", lambda tier: [stop_job(2, tier, F=1)])
+add("C05", lambda tier: [unit_job(6, "sink_string")])
